@@ -616,6 +616,15 @@ impl World {
 			blocked: false,
 			panicked: false,
 		});
+		// C04, decided at issue time: a try_* call must never issue a blocking raw operation
+		if op == Op::Lock {
+			if let Some(c) = g.threads[tid as usize].call {
+				if c.class == Class::TryAcquire {
+					let d = format!("{}: a try_* call issued a blocking request for lock {lock} ({})", c.label, mode.ch());
+					push_violation(&mut g, "C04", "try_issued_blocking_op", d);
+				}
+			}
+		}
 		// C09, decided at issue time: a blocking request inside a retrying-collection acquisition
 		// that cannot be granted now while the caller holds a lock of another group
 		if op == Op::Lock && !grantable_now && held_other_groups > 0 {
